@@ -321,15 +321,19 @@ def dc4(ctx):
               'TREE_PATH_ENTRY_TYPE is not GetAttrEntry', mod.loc(cls))
     # shim before super().__new__ for wrapped functools.partial
     cfgn = pycfg(new)
+    # the wrapped callable: the second positional parameter of __new__(cls, func, /, ...)
+    npos = [a.arg for a in new.args.posonlyargs + new.args.args]
+    ctx.require(len(npos) >= 2, 'partial.__new__: %d positional parameters' % len(npos))
+    fpar = npos[1]
     guard = [s for s in walk(new) if isinstance(s, ast.If) and
-             pmatch(s.test, 'isinstance(func, functools.partial)') is not None]
+             pmatch(s.test, 'isinstance(?f, functools.partial)', {'f': fpar}) is not None]
     oks = False
     if guard:
-        shim = [s for s in guard[0].body if isinstance(s, ast.Assign) and is_name(s.targets[0], 'func')
+        shim = [s for s in guard[0].body if isinstance(s, ast.Assign) and is_name(s.targets[0], fpar)
                 and call_name(s.value) == '_HashablePartialShim']
         sup = [c for b in guard[0].body for c in calls_under(b) if (call_name(c) or '').endswith('.__new__')]
         oks = bool(shim) and bool(sup) and shim[0].lineno < sup[0].lineno and \
-            any(is_name(a, 'func') for a in sup[0].args)
+            any(is_name(a, fpar) for a in sup[0].args)
     ctx.check('partial/shim', oks,
               'a wrapped functools.partial is replaced by the shim before functools.partial.__new__ '
               'can merge its arguments',
